@@ -18,6 +18,7 @@ import (
 	"fmt"
 	"io"
 	"math/rand"
+	"net"
 	"os"
 	"os/exec"
 	"regexp"
@@ -26,6 +27,7 @@ import (
 	"strings"
 	"sync"
 	"sync/atomic"
+	"syscall"
 	"time"
 
 	mqtt "github.com/at-wat/mqtt-go"
@@ -110,6 +112,7 @@ type c11Obs struct {
 	AuxStuck string   `json:"aux_stuck,omitempty"`        // an auxiliary blocking call (lock holder, Disconnect used as cause) did not return
 	All      []c11Res `json:"all,omitempty"`              // multi: every call
 	LoopGone bool     `json:"loop_gone,omitempty"`        // reconn: loop goroutine gone after the scenario
+	EndBad   string   `json:"end_bad,omitempty"`          // after a failed read: transport not closed by the client / Err() without the error
 	TClosed  bool     `json:"tclosed,omitempty"`          // seq: the transport was closed at the end
 	Mid      bool     `json:"mid,omitempty"`              // seq: the intermediate observation was as expected
 	ExclRet  bool     `json:"excl_returned,omitempty"`    // handler: the exclusive-lock caller returned promptly
@@ -258,18 +261,89 @@ func c11InRLock(st string) bool {
 	return strings.Contains(st, "sync.(*RWMutex).RLock") || strings.Contains(st, "sync.(*RWMutex).Lock")
 }
 
+// ---------------------------------------------------------------- transport whose Read can fail
+
+// c11ErrConn is the memConn with a Read that can be made to fail once with a chosen error value while neither
+// side has closed the stream (afterwards Read blocks again, as on a stream that is still open).
+type c11ErrConn struct {
+	*memConn
+	readErr error
+}
+
+func (w *c11ErrConn) Read(p []byte) (int, error) {
+	c := w.memConn
+	c.mu.Lock()
+	defer c.mu.Unlock()
+	c.reads++
+	if len(p) > c.maxRead {
+		c.maxRead = len(p)
+	}
+	for len(c.in) == 0 && !c.closed && !c.eof && w.readErr == nil {
+		c.cond.Wait()
+	}
+	if len(c.in) > 0 {
+		n := copy(p, c.in)
+		c.in = c.in[n:]
+		return n, nil
+	}
+	if w.readErr != nil {
+		err := w.readErr
+		w.readErr = nil
+		return 0, err
+	}
+	return 0, io.EOF
+}
+
+type c11TempErr struct{}
+
+func (c11TempErr) Error() string   { return "transport: temporary failure" }
+func (c11TempErr) Temporary() bool { return true }
+
+type c11TimeoutErr struct{}
+
+func (c11TimeoutErr) Error() string { return "transport: timed out" }
+func (c11TimeoutErr) Timeout() bool { return true }
+
+var c11ReadErrs = map[string]error{
+	"readerr_plain":     errors.New("transport: read failed"),
+	"readerr_unexpeof":  io.ErrUnexpectedEOF,
+	"readerr_deadline":  os.ErrDeadlineExceeded,
+	"readerr_etimedout": &net.OpError{Op: "read", Net: "tcp", Err: syscall.ETIMEDOUT},
+	"readerr_temporary": c11TempErr{},
+	"readerr_timeout":   c11TimeoutErr{},
+}
+
+var c11ReadErrNames = []string{"readerr_plain", "readerr_unexpeof", "readerr_deadline", "readerr_etimedout", "readerr_temporary", "readerr_timeout"}
+
+// failRead: the pending (or next) Read of the client fails with the error of that class; no-op for other causes
+func (p *c11Peer) failRead(cause string) {
+	err, ok := c11ReadErrs[cause]
+	if !ok {
+		return
+	}
+	p.ended = true
+	p.injected = err
+	p.conn.mu.Lock()
+	p.rw.readErr = err
+	p.conn.cond.Broadcast()
+	p.conn.mu.Unlock()
+}
+
 // ---------------------------------------------------------------- scripted peer
 
 type c11Peer struct {
-	conn    *memConn
-	mu      sync.Mutex
-	seen    map[byte]int
-	wake    chan struct{}
-	ackConn bool
-	ended   bool // the peer closed or sent a malformed packet
-	answer  bool // answer every request (used for preludes); otherwise the answers are withheld
-	lastID  map[byte]uint16
-	usedIDs map[uint16]bool
+	rw          *c11ErrConn // what the client gets as its Transport
+	injected    error       // the error a Read was made to fail with
+	errOptional bool        // Err() need not carry it (the client was put into StateDisconnected before)
+	conn        *memConn
+	mu          sync.Mutex
+	seen        map[byte]int
+	wake        chan struct{}
+	ackConn     bool
+	ended       bool // the peer closed or sent a malformed packet
+	answer      bool // answer every request (used for preludes); otherwise the answers are withheld
+	lastID      map[byte]uint16
+	usedIDs     map[uint16]bool
 	// the peer stops reading: a Write of a packet of type stallType blocks until the transport is closed locally
 	stallType byte
 	// the transport reports an error for the next packet of type failType and stays open
@@ -366,6 +440,7 @@ func c11NewPeer(n int, ackConn bool) *c11Peer {
 		p.note(t)
 		return nil
 	})
+	p.rw = &c11ErrConn{memConn: p.conn}
 	return p
 }
 
@@ -608,7 +683,7 @@ func c11PrepareHandle(call string, wait2 bool) (func(), error) {
 	firstConn := c11NewScope() // goroutines left over from earlier scenarios are not this one's
 	peer := c11NewPeer(0, true)
 	peer.noP2 = kind == "pub2" // interrupted before PUBREC
-	cli := &mqtt.BaseClient{Transport: peer.conn}
+	cli := &mqtt.BaseClient{Transport: peer.rw}
 	cctx, ccancel := ctxTimeout(wait)
 	_, err := cli.Connect(cctx, "cid")
 	ccancel()
@@ -714,7 +789,8 @@ func c11RunCellOnce(sp c11Spec, deadline time.Duration) (obs c11Obs, deadlineEar
 		}
 	}
 	peer := c11NewPeer(1, call != "connect" && !entry)
-	cli := &mqtt.BaseClient{Transport: peer.conn}
+	peer.errOptional = call == "disconnect"
+	cli := &mqtt.BaseClient{Transport: peer.rw}
 	var rc *mqtt.RetryClient
 	if call == "retryping" {
 		rc = &mqtt.RetryClient{ResponseTimeout: 60 * time.Second}
@@ -805,6 +881,8 @@ func c11RunCellOnce(sp c11Spec, deadline time.Duration) (obs c11Obs, deadlineEar
 		case "malformed":
 			peer.ended = true
 			peer.conn.send(c11BadPacket)
+		default:
+			peer.failRead(cause)
 		}
 	}
 
@@ -884,6 +962,19 @@ func c11DeadlineWasEarly(ctx context.Context, deadline time.Duration) bool {
 
 // Done() and reader exit: waited for when the connection was ended by anyone, otherwise read at once
 func c11ObserveEnd(obs *c11Obs, sc *c11Scope, peer *c11Peer, cli *mqtt.BaseClient, wait time.Duration) {
+	defer func() {
+		if peer.injected == nil {
+			return
+		}
+		// a failed read ends the connection like any other cause: the client closes the transport and
+		// Err() carries the error
+		if !peer.conn.isClosed() {
+			obs.EndBad += "the transport was not closed by the client; "
+		}
+		if !peer.errOptional && !errors.Is(cli.Err(), peer.injected) {
+			obs.EndBad += fmt.Sprintf("Err() = %v does not carry the read error %v; ", cli.Err(), peer.injected)
+		}
+	}()
 	ended := peer.conn.isClosed() || peer.ended
 	if ended {
 		obs.Done = c11DoneClosed(cli, wait)
@@ -948,6 +1039,8 @@ func c11EntryCell(sp c11Spec, sc *c11Scope, peer *c11Peer, cli *mqtt.BaseClient,
 		case "malformed":
 			peer.ended = true
 			peer.conn.send(c11BadPacket)
+		default:
+			peer.failRead(cause)
 		}
 		if r, ok := c11Await(ret, wait); ok {
 			obs.c11Res = c11Classify(r, ctx)
@@ -980,7 +1073,7 @@ func c11RunSeq(sp c11Spec) (obs c11Obs) {
 		}
 	}
 	peer := c11NewPeer(1, call != "connect")
-	cli := &mqtt.BaseClient{Transport: peer.conn}
+	cli := &mqtt.BaseClient{Transport: peer.rw}
 	var rc *mqtt.RetryClient
 	if call == "retryping" {
 		rc = &mqtt.RetryClient{ResponseTimeout: 60 * time.Second}
@@ -1077,7 +1170,7 @@ func c11RunStray(sp c11Spec) (obs c11Obs) {
 	sc := c11NewScope()
 	bg := context.Background()
 	peer := c11NewPeer(1, true)
-	cli := &mqtt.BaseClient{Transport: peer.conn}
+	cli := &mqtt.BaseClient{Transport: peer.rw}
 	markerCh := make(chan struct{}, 16)
 	cli.Handle(mqtt.HandlerFunc(func(m *mqtt.Message) {
 		if m.Topic == "marker" {
@@ -1240,6 +1333,8 @@ func c11RunStray(sp c11Spec) (obs c11Obs) {
 	case "malformed":
 		peer.ended = true
 		peer.conn.send(c11BadPacket)
+	default:
+		peer.failRead(sp.Cause)
 	}
 	if ret == nil {
 		obs.c11Res = c11Res{Res: "nil"}
@@ -1265,7 +1360,7 @@ func c11RunHandler(sp c11Spec) (obs c11Obs) {
 	sc := c11NewScope()
 	bg := context.Background()
 	peer := c11NewPeer(1, true)
-	cli := &mqtt.BaseClient{Transport: peer.conn}
+	cli := &mqtt.BaseClient{Transport: peer.rw}
 	entered := make(chan struct{}, 4)
 	gate := make(chan struct{})
 	handled := make(chan struct{}, 4)
@@ -1422,7 +1517,7 @@ func c11RunMulti(sp c11Spec) (obs c11Obs) {
 	wait := c11Limit()
 	sc := c11NewScope()
 	peer := c11NewPeer(1, true)
-	cli := &mqtt.BaseClient{Transport: peer.conn}
+	cli := &mqtt.BaseClient{Transport: peer.rw}
 	bg := context.Background()
 	var auxCh chan c11Ret
 	var rets []chan c11Ret
@@ -1502,6 +1597,8 @@ func c11RunMulti(sp c11Spec) (obs c11Obs) {
 	case "malformed":
 		peer.ended = true
 		peer.conn.send(c11BadPacket)
+	default:
+		peer.failRead(sp.Cause)
 	}
 	var others []int
 	for i := range rets {
@@ -1547,7 +1644,7 @@ func (d *c11Dialer) DialContext(ctx context.Context) (*mqtt.BaseClient, error) {
 		// the peer exists before anybody can learn about this dial
 		p := c11NewPeer(d.dials, ack)
 		p.connReply = d.reply
-		cli = &mqtt.BaseClient{Transport: p.conn}
+		cli = &mqtt.BaseClient{Transport: p.rw}
 		d.peers = append(d.peers, p)
 		d.clis = append(d.clis, cli)
 		if d.onNew != nil {
@@ -2119,7 +2216,10 @@ func (c *c11Child) kill() string {
 var c11CallCode = map[string]int{"connect": 0, "pub0": 1, "pub1": 2, "pub2": 3, "sub": 4, "unsub": 5, "ping": 6, "disconnect": 7, "retryping": 8,
 	"rpub1": 9, "rpub1x": 10, "rpub2": 11, "rpub2x": 12, "rrel": 13, "rrelx": 14, "rsub": 15, "rsubx": 16, "runsub": 17, "runsubx": 18}
 var c11PointCode = map[string]int{"entry": 0, "before": 1, "wait1": 2, "wait2": 3, "inwrite": 4}
-var c11CauseCode = map[string]int{"cancel": 0, "deadline": 1, "localclose": 2, "localdisconnect": 3, "peerclose": 4, "malformed": 5}
+var c11CauseCode = map[string]int{"cancel": 0, "deadline": 1, "localclose": 2, "localdisconnect": 3, "peerclose": 4, "malformed": 5,
+	"readerr_plain": 6, "readerr_unexpeof": 6, "readerr_deadline": 6, "readerr_etimedout": 6, "readerr_temporary": 6, "readerr_timeout": 6}
+
+var c11Causes = append([]string{"cancel", "deadline", "localclose", "localdisconnect", "peerclose", "malformed"}, c11ReadErrNames...)
 var c11ResCode = map[string]int{"stuck": 0, "nil": 1, "ctx": 2, "closed": 3, "write": 4, "other": 5, "panic": 6}
 var c11PhaseCode = map[string]int{"rc_dialfail": 0, "rc_dialhang": 1, "rc_ackwithheld": 2, "rd_never": 3, "rd_afterfailed": 4,
 	"rd_duringdialfail": 5, "rd_waitconnack": 6, "rd_connected": 7, "rd_backoffafterloss": 8,
@@ -2152,7 +2252,7 @@ func c11Valid(call, point, cause string) bool {
 	case "wait1":
 		return n >= 1 && !(call == "connect" && cause == "localdisconnect")
 	case "inwrite":
-		return cause == "localclose" || cause == "peerclose"
+		return cause == "localclose" || cause == "peerclose" || strings.HasPrefix(cause, "readerr")
 	default:
 		return n >= 2
 	}
@@ -2265,7 +2365,7 @@ func runC11(cfg *runCfg) error {
 	var specs []c11Spec
 	for _, c := range c11Names(c11CallCode) {
 		for _, p := range c11Names(c11PointCode) {
-			for _, z := range c11Names(c11CauseCode) {
+			for _, z := range c11Causes {
 				if c11Valid(c, p, z) {
 					specs = append(specs, c11Spec{Fam: "cell", Call: c, Point: p, Cause: z})
 				}
@@ -2293,7 +2393,7 @@ func runC11(cfg *runCfg) error {
 			cellCases = append(cellCases, cTuple(
 				fmt.Sprint(c11CallCode[sp.Call]), fmt.Sprint(c11PointCode[sp.Point]), fmt.Sprint(c11CauseCode[sp.Cause]),
 				fmt.Sprint(c11ResCode[o.Res]), cBool(o.Retry), cBool(o.Done), cBool(o.RExit),
-				cBool(o.F14), cBool(len(o.Leak) > 0), cBool(o.AuxStuck != "")))
+				cBool(o.F14), cBool(len(o.Leak) > 0), cBool(o.AuxStuck != "" || o.EndBad != "")))
 			fc := map[string]interface{}{"call": sp.Call, "point": sp.Point, "cause": sp.Cause, "observed": o}
 			m.Families["cell"] = append(m.Families["cell"], fc)
 			dist["cell_"+sp.Point+"_"+o.Res]++
@@ -2456,7 +2556,7 @@ func runC11(cfg *runCfg) error {
 
 	// ---- several calls blocked at once, one connection end
 	kinds := []string{"pub1@wait1", "pub2@wait1", "pub2@wait2", "sub@wait1", "unsub@wait1", "ping@wait1"}
-	ends := []string{"localclose", "localdisconnect", "peerclose", "malformed"}
+	ends := append([]string{"localclose", "localdisconnect", "peerclose", "malformed"}, c11ReadErrNames...)
 	var multiCases []string
 	for i := 0; i < nMulti; i++ {
 		n := 2 + r.Intn(5)
@@ -2493,7 +2593,7 @@ func runC11(cfg *runCfg) error {
 			cn = append(cn, fmt.Sprint(j))
 		}
 		multiCases = append(multiCases, cTuple(cListInline(cs), cListInline(cn), fmt.Sprint(c11CauseCode[sp.Cause]), cListInline(rs),
-			cBool(o.Done), cBool(o.RExit), cBool(len(o.Leak) > 0 || o.AuxStuck != "" || o.Crash != "")))
+			cBool(o.Done), cBool(o.RExit), cBool(len(o.Leak) > 0 || o.AuxStuck != "" || o.Crash != "" || o.EndBad != "")))
 		fc := map[string]interface{}{"calls": sp.Calls, "cancelled_first": sp.Cancel, "cause": sp.Cause, "observed": o}
 		m.Families["multi"] = append(m.Families["multi"], fc)
 		nontrivial++
